@@ -217,6 +217,8 @@ class Mon(object):
             hist = random.Random(HISTORY.randrange(1 << 30))
         if hist is not None and hist.random() < 0.3:
             self._refused_declaration(hist)
+        if hist is not None and kind.startswith('dt') and hist.random() < 0.3:
+            self._refused_configuration(hist)
         if parse:
             self.parse()
             if hist is not None and REPARSE and hist.random() < 0.3:
@@ -261,6 +263,25 @@ class Mon(object):
             pass
         REC.counts['history-raised:redeclaration-not-refused'] += 1
         self.spec = build_spec(self.kind, sd)
+
+    def _refused_configuration(self, h):
+        """History: a set_sampling_period() call with a tolerance outside [0, 1], which rtamt refuses with an
+        exception; a refused call leaves the configuration as it was.  If it is accepted nothing is claimed: the
+        object is rebuilt.  Never raises."""
+        real = tuple(self.sd.get('period') or (1, 's', 0.1))
+        other = h.choice([(500, 'ms'), (2, 's'), (250, 'ms'), (3, 's'), (1, 'ms')])
+        if other[:2] == real[:2]:
+            other = (7, 's')
+        tol = h.choice([1.5, -0.25, 2.0])
+        try:
+            self.spec.set_sampling_period(other[0], other[1], tol)
+        except Exception:
+            REC.counts['history:refused-configuration'] += 1
+            LAST_HISTORY.append('object #%d: set_sampling_period(%s, %r, %s) was refused before parse()' % (
+                self.oid, other[0], other[1], tol))
+            return
+        REC.counts['history-raised:configuration-not-refused'] += 1
+        self.spec = build_spec(self.kind, self.sd)
 
     def _structify(self, method, args):
         """First evaluate()/update(): decide on the struct spelling and re-build the object over it."""
